@@ -17,7 +17,7 @@ from ..symex import Symex, Unanalysable, show, show_pc
 from ..dispatch import Dispatch, operand_desc, strip_refs
 from ..evalterm import Evaluator, Enum, NoModel
 from ..roots_gen import TYPES
-from . import c02_kernels
+from . import c02_kernels, c02_small
 
 LEVEL = "other"
 INTERSECTS = "geo::algorithm::intersects::Intersects"
@@ -54,6 +54,7 @@ def run(rep, tier):
     intersects_dispatch(rep, F, DI)
     contains_dispatch(rep, F, DC)
     c02_kernels.run(rep, F, tier)
+    c02_small.run(rep, F, DI, DC, tier)
 
 
 # ------------------------------------------------------------------------------------------------
